@@ -545,11 +545,12 @@ Definition decls : string :=
   "var w0 = []; var w1 = [];" ++ nl.
 Definition tail_locals : string := "var z1 = 111; var z2 = 222; print(z1); print(z2);" ++ nl.
 
-Definition render (p : prog) : string :=
+(* the program text is prelude ++ render_main *)
+Definition render_main (p : prog) : string :=
   let body := decls ++ r_stmts 30 (p_locals p) 0 (p_body p) ++ (if p_locals p then tail_locals else "") in
-  prelude ++
   (if p_fun p then "fn main() {" ++ nl ++ body ++ "}" ++ nl ++ "main();" ++ nl else body) ++
   "print(" ++ dq ++ "end" ++ dq ++ ");" ++ nl.
+Definition render (p : prog) : string := prelude ++ render_main p.
 
 (* =====================================================================================
    wire format: one group of numbers, prefix encoding (numbers z as z + 1000)
@@ -660,10 +661,10 @@ Definition parse_prog (w : string) : prog := p_prog (List.concat (parse_nss w)).
 
 Local Open Scope string_scope.
 Definition show_lines (l : list (list byte)) : string := show_sep "," hex_of_bytes l.
-(* hex(render) | mech lines | spec lines *)
+(* hex(render_main) | mech lines | spec lines | early exits *)
 Definition run_case (w : string) : string :=
   let p := parse_prog w in
-  hex_of_bytes (bytes_of_string (render p)) ++ "|" ++ show_lines (eval_mech p) ++ "|" ++ show_lines (eval_spec p)
+  hex_of_bytes (bytes_of_string (render_main p)) ++ "|" ++ show_lines (eval_mech p) ++ "|" ++ show_lines (eval_spec p)
   ++ "|" ++ show_nat (early_exits p).
 Definition run_case_norender (w : string) : string :=
   let p := parse_prog w in show_lines (eval_mech p) ++ "|" ++ show_lines (eval_spec p).
